@@ -352,7 +352,14 @@ def lossless_trunc_rule(prog, chk, rule, functions, floor=1):
                 z = zero.get(src[1], 0) if src[0] == "v" else (~src[1] & ((1 << sb) - 1) if src[0] == "i" else 0)
                 dropped = ((1 << sb) - 1) & ~((1 << db) - 1)
                 ok = (z & dropped) == dropped
-                chk.ob(rule, f, "narrowing from %d to %d bits at %s drops only bits that are always zero" % (sb, db, f.loc(i)), ok, loc=f.loc(i),
+                if not ok and src[0] == "v" and f.insts[src[1]]["op"] == "or":
+                    # a fold: x | (x >> db) keeps a copy of every dropped bit in the part that stays (zero-ness is preserved)
+                    a, b = f.insts[src[1]]["ops"]
+                    for x, y in ((a, b), (b, a)):
+                        if y[0] == "v" and f.insts[y[1]]["op"] == "lshr" and f.insts[y[1]]["ops"][0] == x and \
+                                f.insts[y[1]]["ops"][1][0] == "i" and f.insts[y[1]]["ops"][1][1] == db and sb == 2 * db:
+                            ok = True
+                chk.ob(rule, f, "narrowing from %d to %d bits at %s drops only bits that are always zero (or folded into the rest)" % (sb, db, f.loc(i)), ok, loc=f.loc(i),
                        detail="" if ok else "the upper %d bits of the accumulated difference are dropped before the zero test: inputs that "
                        "differ from the reference only there compare as equal" % (sb - db), key="%s %s trunc" % (rule, name))
     chk.floor(rule, "narrowings in comparison predicates", n, floor)
